@@ -101,10 +101,7 @@ async fn do_call(t: &mut (dyn StorageTxn + Send), c: Call) -> Res {
             v.sort();
             Res::Uuids(v)
         }),
-        // pending tasks come in working-set order in both stores
-        Call::Pending => r(t.get_pending_tasks().await, |v| {
-            Res::Tasks(v.into_iter().map(|(a, m)| (a, m.into_iter().collect())).collect())
-        }),
+        Call::Pending => r(t.get_pending_tasks().await, norm_tasks),
         Call::BaseVersion => r(t.base_version().await, Res::Uuid),
         Call::SetBase(n) => r(t.set_base_version(u(100 + n)).await, |_| Res::Unit),
         Call::TaskOps(n) => r(t.get_task_operations(u(n)).await, Res::Ops),
